@@ -25,6 +25,9 @@ PROPS = {
     "C09": P(9, "exploration",
              quick=dict(checks=6000, timeout=600),
              thorough=dict(checks=60000, shards=8, timeout=1800, fuzz=[("FuzzC09", 180)])),
+    "C10": P(10, "exploration",
+             quick=dict(checks=1200, timeout=900, shrinktime="15s"),
+             thorough=dict(checks=12000, shards=8, timeout=3000, fuzz=[("FuzzC10Server", 180)])),
     "C11": P(11, "exploration",
              quick=dict(checks=4000, timeout=600),
              thorough=dict(checks=40000, shards=8, timeout=1800)),
